@@ -32,6 +32,11 @@ class BuckGophermapHandler(BaseHandler):
                 and self.getselector().endswith(".gophermap")
             ):
                 self.entry.populatefromvfs(self.vfs, self.getselector())
+                # The file is served as a menu, so describe it as one (and
+                # not as a text document of the file's size).
+                self.entry.type = "1"
+                self.entry.mimetype = "application/gopher-menu"
+                self.entry.size = None
             else:
                 self.entry.populatefromfs(
                     self.getselector(), self.statresult, vfs=self.vfs
